@@ -73,7 +73,7 @@ Fixpoint all_some (l : list (option bytes)) : option (list bytes) :=
 
 (* HelloHandler.parse: (sid, Capabilities(capabilities)); Capabilities(None-containing list) raises
    AttributeError (Crash 2).  The Capabilities object is reported as its keys in order. *)
-Definition parse (root : node) : res (sid * list bytes) :=
+Definition parse_hello (root : node) : res (sid * list bytes) :=
   let '(s, texts) := parse_loop (children_of root) SidDefault [] in
   match all_some texts with
   | Some uris => Ok (s, map fst (caps_of uris))
@@ -207,7 +207,7 @@ Definition step (fixed15 : bool) (client : list bytes) (s : st) (l : label) : op
       match h with
       | HOther => Some s
       | HTree t =>
-          match parse t with
+          match parse_hello t with
           | Ok (sd, uris) => Some (mkst (s_base s) (s_q s) (s_pending s) (s_wire s) (s_listener s) true (s_error s) sd (Some uris) (s_alive s) (s_main s))
           | _ => Some (mkst (s_base s) (s_q s) (s_pending s) (s_wire s) (s_listener s) true (Some EParse) (s_sid s) (s_caps s) (s_alive s) (s_main s))
           end
@@ -236,8 +236,8 @@ Definition step (fixed15 : bool) (client : list bytes) (s : st) (l : label) : op
       end
   end.
 
-Fixpoint run (fixed15 : bool) (client : list bytes) (s : st) (ls : list label) : option st :=
+Fixpoint run_labels (fixed15 : bool) (client : list bytes) (s : st) (ls : list label) : option st :=
   match ls with
   | [] => Some s
-  | l :: r => match step fixed15 client s l with Some s' => run fixed15 client s' r | None => None end
+  | l :: r => match step fixed15 client s l with Some s' => run_labels fixed15 client s' r | None => None end
   end.
